@@ -91,7 +91,7 @@ int main() {
   // silence the library's chatter on cerr/clog
   std::cerr.setstate(std::ios::failbit);
   std::clog.setstate(std::ios::failbit);
-  // watchdog: a history that does not finish within 20 s of CPU-independent wall time is reported as a crash
+  // watchdog: a history that does not finish within 6 s of wall time is reported as a crash
   signal(SIGALRM, vh::on_crash);
   bool skipping = true;   // after a restart in the middle of a history: answer SKIP until the next history starts
   while (std::getline(std::cin, line)) {
@@ -99,7 +99,7 @@ int main() {
     std::string op;
     in >> op;
     if (op.empty()) { vh::emit("ok"); continue; }
-    if (op == "H") { c.reset(new Complex()); skipping = false; alarm(20); vh::emit("ok"); continue; }
+    if (op == "H") { c.reset(new Complex()); skipping = false; alarm(6); vh::emit("ok"); continue; }
     if (skipping) { vh::emit("SKIP"); continue; }
     std::vector<int> a;
     std::string ans;
